@@ -232,11 +232,46 @@ fn dirty_vals(rng: &mut Rng, k: &Knobs) -> Vals {
     v
 }
 
+/// Duplicates one keyframe that defines `a` (and sometimes `n`) at the same position with other
+/// values: a discontinuity exactly at a keyframe position.
+fn add_step_keyframe(rng: &mut Rng, tl: &mut TlSpec, k: &Knobs) {
+    let candidates: Vec<usize> = (0..tl.kfs.len()).filter(|&i| tl.kfs[i].a.is_some() && !tl.kfs[i].via_from).collect();
+    if candidates.is_empty() || tl.kfs.len() > 64 {
+        return;
+    }
+    let i = *rng.pick(&candidates);
+    let mut step = tl.kfs[i].clone();
+    step.a = Some(simmodel::gen::gen_f32_value(rng, k));
+    step.b = None;
+    step.k = None;
+    step.n = if step.n.is_some() && rng.chance(0.5) { Some(simmodel::gen::gen_i32_value(rng, k)) } else { None };
+    step.easing = None;
+    tl.kfs.insert(i + 1, step);
+}
+
 fn generate(rng: &mut Rng, property: &str, deep: bool) -> Scn {
     let extreme = property == "C20";
     let knobs = gen_knobs_with(rng, extreme, true);
     let n_pool = rng.range(1, 3) as usize;
-    let pool: Vec<ObjSpec> = (0..n_pool).map(|_| gen_obj(rng, &knobs)).collect();
+    let mut pool: Vec<ObjSpec> = (0..n_pool).map(|_| gen_obj(rng, &knobs)).collect();
+    // C09 only compares the real timeline with the real timeline, so it may also use "step"
+    // keyframes - the same property keyframed twice at one position - which the other checks keep
+    // out of their domain (their reference semantics does not define the value *at* the step).
+    // Whatever mina answers there, it has to answer the same after any history.
+    if property == "C09" && rng.chance(0.2) {
+        let i = rng.usize_below(pool.len());
+        let tl = match &mut pool[i] {
+            ObjSpec::Single(tl) => Some(tl),
+            ObjSpec::Merged(m) if !m.parts.is_empty() => {
+                let j = rng.usize_below(m.parts.len());
+                Some(&mut m.parts[j])
+            }
+            ObjSpec::Merged(_) => None,
+        };
+        if let Some(tl) = tl {
+            add_step_keyframe(rng, tl, &knobs);
+        }
+    }
     let n_slots = rng.range(1, 3) as usize;
     let slots: Vec<Vals> = (0..n_slots).map(|_| dirty_vals(rng, &knobs)).collect();
     // bookkeeping: which object indices are alive, and the spec index they descend from
@@ -600,8 +635,12 @@ fn execute(scn: &Scn, property: &str) -> RunOutcome {
                         ));
                     }
                 } else {
-                    // expected: a fresh timeline, evaluated once into a fresh default target
+                    // expected: a fresh timeline, evaluated once into a fresh default target, with
+                    // whatever per-thread state the library may keep put back to the state every
+                    // run starts from - so the comparison is "this history" against "no history",
+                    // not against "the same history, one call later"
                     let expected = catch(|| {
+                        simmodel::normalise_hidden_state();
                         let mut fresh = Obj::build(spec);
                         if let Some(v) = &l.last_start {
                             fresh.start_with(v);
